@@ -45,6 +45,10 @@ def relation(fail, suspect):
 
 
 def run(ctx) -> None:
+    global GRID, VALUES
+    if ctx.thorough:
+        GRID = [-3, -2, -1, 0, 1, 2, 3, 4]
+        VALUES = sorted({g + d for g in GRID for d in (-0.5, 0, 0.5)})
     ctx.require("gross_range.calls", 100)
     ctx.require("valid_range.calls", 100)
     ctx.require("gross_range.rejections_observed", 10)
@@ -166,7 +170,7 @@ def run(ctx) -> None:
 
     # ---- seeded long series
     rng = ctx.rng
-    for k in range(ctx.pick(150, 1500)):
+    for k in range(ctx.pick(150, 6000)):
         n = rng.choice([0, 1, 2, 3, 17, 64, 257])
         vals = [rng.choice([None, rng.randrange(-40, 41) / 4]) if rng.random() < 0.15 else rng.randrange(-40, 41) / 4
                 for _ in range(n)]
